@@ -257,6 +257,9 @@ namespace adept {
     // the last calculation included gradient and Hessian.
     int state_up_to_date = -1;
 
+    // Index of the variable that met its bound in the last step, if any
+    int i_last_captured = -1;
+
     do {
       // At this point we have either just started or have just
       // reduced the cost function
@@ -297,6 +300,14 @@ namespace adept {
 	    modified_hessian.diag_vector() += damping*diag_scaling;
 	  }
 	  dx = -adept::solve(modified_hessian, gradient);
+	  // A variable that met its bound in the last step is not
+	  // released straight away: releasing it would let the next
+	  // step be cut short at the same bound again, and alternating
+	  // in this way the iteration can stall far from the minimum
+	  int held_status = 0;
+	  if (i_last_captured >= 0) {
+	    held_status = bound_status(i_last_captured);
+	  }
 	  // Release points at the minimum bound
 	  bound_status.where(bound_status == -1
 			     && gradient < 0.0
@@ -305,6 +316,9 @@ namespace adept {
 	  bound_status.where(bound_status == 1
 			     && gradient > 0.0
 			     && dx < 0.0) = 0;
+	  if (i_last_captured >= 0) {
+	    bound_status(i_last_captured) = held_status;
+	  }
 	}
 	else if (nbound > 0) {
 	  // Condition (1) alone
@@ -493,6 +507,10 @@ namespace adept {
 	  if (bound_type != 0) {
 	    // Found a new bound
 	    bound_status(ifree(ibound)) = bound_type;
+	    i_last_captured = ifree(ibound);
+	  }
+	  else {
+	    i_last_captured = -1;
 	  }
 	  // ...and any other variable that reached its bound in the
 	  // same step (the full step can land on a bound exactly, or
